@@ -242,6 +242,12 @@ type Instance struct {
 	viol []violation
 	dead bool // an API call panicked
 
+	// whole-history loss accounting (valid under re-entrancy too): what was reported in total, which ords were delivered
+	totalLost  int64
+	delivered  map[uint32]bool
+	firstDeliv uint32
+	hasFirst   bool
+
 	// wide mode (scale scenarios: thousands of buffered events, all inside one window so that the stated order is the
 	// order of ord()): the same monitors with logarithmic bookkeeping instead of a walk over every pending event -
 	// a lazily cleaned min-heap for "the oldest buffered event", a decreasing stack of deliveries for "a higher
@@ -344,6 +350,13 @@ func (in *Instance) ReassemblyComplete(msgs []*auparse.AuditMessage) {
 		in.fail("M01", "group-mismatch", "callback for sequence %d delivered %s but the undelivered pushed records are %s (extra/missing/reordered/split)", s, descMsgs(msgs), descRecs(ev.msgs))
 	}
 	in.delivLog = append(in.delivLog, fmt.Sprintf("%d:%d", in.ord(s), len(msgs)))
+	if in.delivered == nil {
+		in.delivered = map[uint32]bool{}
+	}
+	if !in.hasFirst {
+		in.hasFirst, in.firstDeliv = true, in.ord(s)
+	}
+	in.delivered[in.ord(s)] = true
 
 	// M10 cause check (outside Close).
 	if !in.callIsClose {
@@ -462,6 +475,7 @@ var foreignMsg = &auparse.AuditMessage{RecordType: 1300, Sequence: 0x7eadbeef, R
 
 func (in *Instance) EventsLost(count int) {
 	in.callbacks++
+	in.totalLost += int64(count)
 	if !in.inCall {
 		in.fail("M03", "lost-outside-call", "EventsLost outside any API call")
 	}
@@ -733,6 +747,29 @@ func (in *Instance) applyOp(op Op) {
 				}
 				sort.Strings(seqs)
 				in.fail("M01", "not-delivered-by-close", "after Close these pushed records were never delivered: %v", seqs)
+				in.fail("M19", "not-delivered-by-close", "after Close these buffered events were never delivered: %v", seqs)
+			}
+			// whole-history accounting: every sequence number between the FIRST delivered event and the highest delivered one
+			// that was never delivered has been reported lost (numbers delivered late were reported, too: the total may be
+			// larger, never smaller).  Holds whatever the Stream does from its callbacks.
+			if in.hasFirst && len(in.delivered) < 1<<20 {
+				var hi uint32
+				for o := range in.delivered {
+					if int32(o-in.firstDeliv) > 0 && (hi == 0 || int32(o-hi) > 0) {
+						hi = o
+					}
+				}
+				missing := int64(0)
+				if hi != 0 && hi-in.firstDeliv < 1<<20 { // one window only (configurations 2^31 apart are not about loss counts)
+					for o := in.firstDeliv + 1; o != hi; o++ {
+						if !in.delivered[o] {
+							missing++
+						}
+					}
+				}
+				if in.totalLost < missing {
+					in.fail("M03", "never-delivered-not-reported", "after Close: %d sequence numbers between the first delivered event (ord %d) and the highest delivered one (ord %d) were never delivered, but EventsLost reported only %d in total", missing, in.firstDeliv, hi, in.totalLost)
+				}
 			}
 		} else {
 			if err == nil {
